@@ -557,7 +557,7 @@ def _worker(args):
 
 
 def run(tier, seed, replay=None, scale=1.0):
-    r = report.Run(PROP, tier)
+    r = report.Run(PROP, tier, seed=seed)
     r.rule = RULE
     exes = {}
     for flavor in ("asan", "tsan"):
